@@ -24,6 +24,7 @@
 #
 # Author: Ilya Baldin (ibaldin@renci.org)
 import dataclasses
+import copy
 from typing import List, Tuple, Any, Dict
 import enum
 from dataclasses import dataclass
@@ -108,6 +109,9 @@ class MaintenanceInfo:
         Prevent further modifications - used after the object is
         assigned to a property
         """
+        if not self._lock:
+            # detach the entries from whoever still holds them (the objects passed to add(), returned by get())
+            self._nodes = {k: copy.copy(v) for k, v in self._nodes.items()}
         self._lock = True
 
     def add(self, name: str, minfo: MaintenanceEntry) -> None:
@@ -116,13 +120,12 @@ class MaintenanceInfo:
         """
         if self._lock:
             raise MaintenanceModeException("Unable to modify a finalized object, recreate and reassign")
-        # keep a copy: the caller's object must not be a handle on this (later finalized) record
-        self._nodes[name] = dataclasses.replace(minfo)
+        self._nodes[name] = minfo
 
     def get(self, name: str) -> MaintenanceEntry or None:
         entry = self._nodes.get(name)
-        # hand out a copy, entries are mutable
-        return dataclasses.replace(entry) if entry is not None else None
+        # entries are mutable: once the record is finalized only copies are handed out
+        return copy.copy(entry) if self._lock and entry is not None else entry
 
     def rem(self, name: str) -> None:
         """
@@ -153,7 +156,7 @@ class MaintenanceInfo:
         Copy an instance of the object but don't finalize
         """
         t = MaintenanceInfo()
-        t._nodes = {k: dataclasses.replace(v) for k, v in self._nodes.items()}
+        t._nodes = {k: copy.copy(v) for k, v in self._nodes.items()}
         return t
 
     def list_names(self) -> List[str]:
@@ -166,7 +169,7 @@ class MaintenanceInfo:
         """
         Return a list of tuples with node name and maintenance state details
         """
-        return [(k, dataclasses.replace(v)) for k, v in self._nodes.items()]
+        return [(k, copy.copy(v) if self._lock else v) for k, v in self._nodes.items()]
 
     def iter(self):
         """
@@ -177,7 +180,7 @@ class MaintenanceInfo:
         if not self._lock:
             raise MaintenanceModeException("Object should be finalized prior to attempting iteration")
         for k, v in self._nodes.items():
-            yield k, dataclasses.replace(v)
+            yield k, copy.copy(v)
 
     @classmethod
     def from_json(cls, json_string: str):
